@@ -677,7 +677,19 @@ func (d *rcDriver) Run(x *sched.Exec, raw json.RawMessage) json.RawMessage {
 			return nil
 		}
 		ms := x.GrantMoves()
-		if d.phase == 0 {
+		// The monitor takes the logged start of AddRef / Release / SetContext / released() as the point
+		// where the call takes effect. That is exact while such a call is one controller step (its only
+		// lock section is not a park point: skipLock); if the code gives it further sections the call
+		// stays in flight, and then no other call is issued until it has returned, so that two such
+		// calls never overlap (library goroutines still interleave with it: RefCountP's `minv`).
+		single := false
+		for _, c := range d.cl {
+			if c.single != 0 {
+				single = true
+			}
+		}
+		single = single || d.helper.c.Busy()
+		if d.phase == 0 && !single {
 			ms = append(ms, x.ClientMoves()...)
 		}
 		d.mu.Lock()
@@ -700,7 +712,7 @@ func (d *rcDriver) Run(x *sched.Exec, raw json.RawMessage) json.RawMessage {
 			}
 			// (random scenarios: no more released() calls once 8 resolver calls were made, so that an
 			// execution is not spent on release/resolve cycles; the X scenarios stay far below)
-			if d.phase == 0 && rs.nOut < sc.RelOut && d.nres <= 8 && !d.helper.c.Busy() {
+			if d.phase == 0 && !single && rs.nOut < sc.RelOut && d.nres <= 8 && !d.helper.c.Busy() {
 				rs := rs
 				ms = append(ms, sched.Move{Label: fmt.Sprintf("released:%d", rs.n), Actor: "h", Do: func() {
 					rs.nOut++
